@@ -10,6 +10,7 @@ import (
 	"math/rand"
 	"os"
 	"reflect"
+	"strconv"
 	"strings"
 	"sync/atomic"
 	"time"
@@ -215,6 +216,29 @@ func members(cls string, rng *rand.Rand, full bool) []member {
 		out = append(out, member{v: s, content: `[1,"a",null,[2],{"k":0.5}]`, mutate: func() { s[0] = 99; s[3].([]any)[0] = 98 }})
 		out = append(out, member{v: []any{}, content: `[]`})
 		out = append(out, member{v: []any{[]any{}, map[string]any{}, []any{}, map[string]any{}, []string{}, map[string]float64{}, []any{[]any{}}}, content: `[[],{},[],{},[],{},[[]]]`})
+		{
+			big := make([]any, 4099)
+			var b strings.Builder
+			b.WriteByte('[')
+			for i := range big {
+				if i > 0 {
+					b.WriteByte(',')
+				}
+				switch {
+				case i >= 4096 && i%2 == 0:
+					big[i] = []any{int16(i)}
+					b.WriteString("[" + strconv.Itoa(i) + "]")
+				case i >= 4096:
+					big[i] = map[string]any{"k": uint32(i)}
+					b.WriteString(`{"k":` + strconv.Itoa(i) + "}")
+				default:
+					big[i] = int8(i % 100)
+					b.WriteString(strconv.Itoa(i % 100))
+				}
+			}
+			b.WriteByte(']')
+			out = append(out, member{v: big, content: b.String()})
+		}
 	case "[]Object":
 		s := []at.Object{at.NewObject("x", 1), at.NewObject()}
 		out = append(out, member{v: s, content: `[{"x":1},{}]`, mutate: func() { s[0] = at.NewObject("y", 2) }})
@@ -225,18 +249,77 @@ func members(cls string, rng *rand.Rand, full bool) []member {
 		s := []string{"a", ""}
 		out = append(out, member{v: s, content: `["a",""]`, mutate: func() { s[0] = "z" }})
 		out = append(out, member{v: []string{}, content: `[]`})
+		{
+			big := make([]string, 4099)
+			var b strings.Builder
+			b.WriteByte('[')
+			for i := range big {
+				big[i] = "s" + strconv.Itoa(i)
+				if i > 0 {
+					b.WriteByte(',')
+				}
+				b.WriteString(strconv.Quote(big[i]))
+			}
+			b.WriteByte(']')
+			out = append(out, member{v: big, content: b.String()})
+		}
 	case "[]bool":
 		s := []bool{true, false}
 		out = append(out, member{v: s, content: `[true,false]`, mutate: func() { s[0] = false }})
 		out = append(out, member{v: []bool{}, content: `[]`})
+		{
+			big := make([]bool, 4097)
+			var b strings.Builder
+			b.WriteByte('[')
+			for i := range big {
+				big[i] = i%3 == 0
+				if i > 0 {
+					b.WriteByte(',')
+				}
+				b.WriteString(strconv.FormatBool(big[i]))
+			}
+			b.WriteByte(']')
+			out = append(out, member{v: big, content: b.String()})
+		}
 	case "[]int":
 		s := []int{3, -1}
 		out = append(out, member{v: s, content: `[3,-1]`, mutate: func() { s[0] = 0 }})
 		out = append(out, member{v: []int{}, content: `[]`})
+		{
+			// long slices (block-wise conversion must not drop a remainder): 4099 and 8197 elements
+			for _, n := range []int{4099, 8197} {
+				big := make([]int, n)
+				var b strings.Builder
+				b.WriteByte('[')
+				for i := range big {
+					big[i] = i - 7
+					if i > 0 {
+						b.WriteByte(',')
+					}
+					b.WriteString(strconv.Itoa(i - 7))
+				}
+				b.WriteByte(']')
+				out = append(out, member{v: big, content: b.String()})
+			}
+		}
 	case "[]float64":
 		s := []float64{1.5, -2.25}
 		out = append(out, member{v: s, content: `[1.5,-2.25]`, mutate: func() { s[0] = 0 }})
 		out = append(out, member{v: []float64{}, content: `[]`})
+		{
+			big := make([]float64, 4101)
+			var b strings.Builder
+			b.WriteByte('[')
+			for i := range big {
+				big[i] = float64(i) + 0.5
+				if i > 0 {
+					b.WriteByte(',')
+				}
+				b.WriteString(strconv.FormatFloat(big[i], 'f', -1, 64))
+			}
+			b.WriteByte(']')
+			out = append(out, member{v: big, content: b.String()})
+		}
 	case "[]Object{nil}":
 		out = append(out, member{v: []at.Object{nil, at.NewObject()}, content: `[null,{}]`})
 	case "[]List{nil}":
